@@ -121,3 +121,75 @@ Theorem C11_frag_simplify_is_the_simplifier : forall ora t, frag_atom t = true -
   frag_simplify ora t = simplify_with ora t.
 Proof. exact frag_simplify_is_simplify. Qed.
 Print Assumptions C11_frag_simplify_is_the_simplifier.
+
+(* ---- shape with NO simplifier hypothesis ----
+   [atoms_ok f]: the atoms of f are symbols, constants, function applications, arithmetic /
+   bit-vector relations, equalities or string predicates.  The condition cannot be dropped:
+   [shape_hyp] is false of the simplifier and the faithful model returns a non-literal for a
+   Bool-sorted Select on a constant array value (replayed on pysmt: open finding
+   cnf-shape:bool-select-of-array-value). *)
+Theorem C11_cnf_shape_simplifier : forall ora f st cl st', atoms_ok f = true ->
+  cnf_convert (frag_simplify ora) f st = Some (cl, st') -> clauses_of_literals cl.
+Proof. exact cnf_shape_simplifier. Qed.
+Print Assumptions C11_cnf_shape_simplifier.
+Theorem C11_pol_shape_simplifier : forall ora f st cl st', atoms_ok f = true ->
+  pol_convert (frag_simplify ora) f st = Some (cl, st') -> clauses_of_literals cl.
+Proof. exact pol_shape_simplifier. Qed.
+Print Assumptions C11_pol_shape_simplifier.
+Theorem C11_shape_hyp_refuted : ~ shape_hyp (frag_simplify no_oracle).
+Proof. exact shape_hyp_refuted. Qed.
+Print Assumptions C11_shape_hyp_refuted.
+Theorem C11_cnf_shape_refuted :
+  exists f st cl st', start_ok f st /\ cnf_convert (frag_simplify no_oracle) f st = Some (cl, st') /\
+                      ~ clauses_of_literals cl.
+Proof. exact cnf_shape_refuted. Qed.
+Print Assumptions C11_cnf_shape_refuted.
+
+(* ---- reused objects: the n-th call of any history ----
+   CNF: [cnf_hist asimp st] = st is reached from a new object by successful conversions (either
+   converter's walk on the shared table, manager possibly growing in between); then the
+   single-call theorems hold for the next call ([reuse_ok]: the manager knows f's symbols and f
+   mentions no variable introduced earlier). *)
+Theorem C11_cnf_hist_reuse_ok : forall asimp Pi, simp_sound_on Pi asimp -> pi_closed Pi -> forall st f,
+  cnf_hist asimp st -> (forall n ty, In (n, ty) (Oracles.fv f) -> In n (mnames (mgr st))) ->
+  (forall n, In n (introduced st) -> ~ In (n, TBool) (Oracles.fv f)) -> reuse_ok f st.
+Proof. exact cnf_hist_reuse_ok. Qed.
+Print Assumptions C11_cnf_hist_reuse_ok.
+Theorem C11_cnf_complete_reuse : forall asimp Pi, simp_sound_on Pi asimp -> pi_closed Pi -> forall f st cl st' I,
+  reuse_ok f st -> cnf_convert asimp f st = Some (cl, st') -> Pi I -> holds I f ->
+  exists I', agrees_off (introduced st') I I' /\ sat I' cl = true /\ holds I' (as_formula cl) /\
+             (forall n, In n (introduced st') -> In n (introduced st) \/ ~ In n (mnames (mgr st))).
+Proof. exact cnf_complete_reuse. Qed.
+Print Assumptions C11_cnf_complete_reuse.
+Theorem C11_cnf_sound_reuse : forall asimp Pi, simp_sound_on Pi asimp -> pi_closed Pi -> forall f st cl st' J,
+  reuse_ok f st -> cnf_convert asimp f st = Some (cl, st') -> Pi J -> sat J cl = true -> holds J f.
+Proof. exact cnf_sound_reuse. Qed.
+Print Assumptions C11_cnf_sound_reuse.
+Theorem C11_pol_complete_reuse : forall asimp Pi, simp_sound_on Pi asimp -> pi_closed Pi -> forall f st cl st' I,
+  reuse_ok f st -> pol_convert asimp f st = Some (cl, st') -> Pi I -> holds I f ->
+  exists I', agrees_off (introduced st') I I' /\ sat I' cl = true /\ holds I' (as_formula cl) /\
+             (forall n, In n (introduced st') -> In n (introduced st) \/ ~ In n (mnames (mgr st))).
+Proof. exact pol_complete_reuse. Qed.
+Print Assumptions C11_pol_complete_reuse.
+Theorem C11_pol_sound_reuse : forall asimp Pi, simp_sound_on Pi asimp -> pi_closed Pi -> forall f st cl st' J,
+  reuse_ok f st -> pol_convert asimp f st = Some (cl, st') -> Pi J -> sat J cl = true -> holds J f.
+Proof. exact pol_sound_reuse. Qed.
+Print Assumptions C11_pol_sound_reuse.
+
+(* Ackermannization: [ack_hist Q names0 st] = st is reached from a new object by calls on
+   formulas satisfying Q (manager possibly growing in between) *)
+Theorem C11_ack_sound_history : forall names0 st f J,
+  ack_hist (fun t => is_qf t = true) names0 st -> is_qf f = true -> wf_interp J ->
+  holds J (fst (ackermannize f st)) ->
+  exists I, isym I = isym J /\ rdiv0 I = rdiv0 J /\ idiv0 I = idiv0 J /\ holds I f.
+Proof. exact ack_sound_history. Qed.
+Print Assumptions C11_ack_sound_history.
+Theorem C11_ack_complete_history : forall names0 st f I,
+  ack_hist (Qc names0) names0 st ->
+  is_qf f = true -> okt f = true -> (exists ty, tc f = Some ty) -> incl (symnames f) names0 -> wf_interp I ->
+  holds I f ->
+  let r := ackermannize f st in
+  exists I', agrees_off (ack_constants (snd r)) I I' /\ holds I' (fst r) /\
+             (forall n, In n (ack_constants (snd r)) -> ~ In n names0).
+Proof. exact ack_complete_history. Qed.
+Print Assumptions C11_ack_complete_history.
